@@ -1,8 +1,112 @@
-/- line-protocol engine `str` (stub: answers bad-op until the engine is built) -/
+/- line-protocol engine `str`: FencedString operations and the string builtins' index handling (C18).
+Strings travel as comma-separated code points (`_` = empty); a FencedString answer is `<code points>|<table>`. -/
+import XrayModel.FString
+import XrayModel.Lex
+open XrayModel XrayModel.FStr
 namespace XrayDriver
+namespace StrE
+
+def parseCps (s : String) : Option (List Char) :=
+  if s == "_" then some [] else
+  (s.splitOn ",").mapM (fun t => t.toNat?.bind (fun n => if n.isValidChar then some (Char.ofNat n) else none))
+
+def showNats (l : List Nat) : String :=
+  if l.isEmpty then "_" else String.intercalate "," (l.map toString)
+
+def showCps (l : List Char) : String := showNats (l.map Char.toNat)
+
+def showRes {α} (f : α → String) : Res α → String
+  | .ok v => f v
+  | .err m => "err " ++ m
+  | .panic _ => "panic"
+
+/-- what can be seen of a FencedString from outside: text, `len`, table length, and `substr(i, i+1)` for
+every `i < len` (`!` = panic) -/
+def showFS (s : FS) : String :=
+  let probe := (List.range s.len).map (fun i =>
+    match s.substr i (some (i + 1)) with
+    | .ok t => showCps t
+    | _ => "!")
+  showCps s.buf ++ "|" ++ toString s.len ++ "|" ++ toString s.starts.length ++ "|" ++
+    (if probe.isEmpty then "_" else String.intercalate ";" probe)
+
+def parseOptNat (s : String) : Option (Option Nat) :=
+  if s == "none" then some none else s.toNat?.map some
+
+def parseOptInt (s : String) : Option (Option Int) :=
+  if s == "none" then some none else s.toInt?.map some
+
+def showOptNat : Option Nat → String
+  | none => "none"
+  | some n => s!"some {n}"
+
+end StrE
+open StrE
 
 def strEngine (f : String) (args : List String) : String :=
+  let fs (s : String) : Option FS := (parseCps s).map FS.fromString
   match f, args with
+  | "from", [s] => match fs s with | some x => showFS x | none => "bad-op"
+  | "bytes", [s] => match parseCps s with | some x => showNats (encode x) | none => "bad-op"
+  | "len", [s] => match fs s with | some x => toString x.len | none => "bad-op"
+  | "substring", [s, a, b] =>
+    match fs s, a.toNat?, parseOptNat b with
+    | some x, some a, some b => showRes showFS (x.substring a b)
+    | _, _, _ => "bad-op"
+  | "substr", [s, a, b] =>
+    match fs s, a.toNat?, parseOptNat b with
+    | some x, some a, some b => showRes showCps (x.substr a b)
+    | _, _, _ => "bad-op"
+  | "push", [s, t] =>
+    match fs s, fs t with
+    | some x, some y => showFS (x.push y)
+    | _, _ => "bad-op"
+  | "push_ascii", [s, t] =>
+    match fs s, parseCps t with
+    | some x, some y => showFS (x.pushAscii y)
+    | _, _ => "bad-op"
+  -- composites that reach the non-canonical representation (an ASCII slice of a non-ASCII string keeps a table)
+  | "sub_push", [s, a, b, t] =>
+    match fs s, a.toNat?, parseOptNat b, fs t with
+    | some x, some a, some b, some y => showRes showFS ((x.substring a b).map (fun r => r.push y))
+    | _, _, _, _ => "bad-op"
+  | "push_sub", [t, s, a, b] =>
+    match fs s, a.toNat?, parseOptNat b, fs t with
+    | some x, some a, some b, some y => showRes showFS ((x.substring a b).map (fun r => y.push r))
+    | _, _, _, _ => "bad-op"
+  | "sub_sub", [s, a, b, c, d] =>
+    match fs s, a.toNat?, parseOptNat b, c.toNat?, parseOptNat d with
+    | some x, some a, some b, some c, some d => showRes showFS ((x.substring a b).bind (fun r => r.substring c d))
+    | _, _, _, _, _ => "bad-op"
+  | "sub_len", [s, a, b] =>
+    match fs s, a.toNat?, parseOptNat b with
+    | some x, some a, some b => showRes toString ((x.substring a b).map FS.len)
+    | _, _, _ => "bad-op"
+  -- case mapping: the mapped text and the all-cased flag come from the Rust standard library (parameters)
+  | "casemap", [s, flag, mapped] =>
+    match fs s, parseCps mapped with
+    | some x, some m =>
+      (match x.caseMap (flag == "1") m with
+       | none => "same"
+       | some r => showFS r)
+    | _, _ => "bad-op"
+  -- builtins
+  | "b.get", [s, i] =>
+    match fs s, i.toInt? with
+    | some x, some i => showRes showFS (get x i)
+    | _, _ => "bad-op"
+  | "b.find", [s, n, st] =>
+    match fs s, fs n, parseOptInt st with
+    | some x, some y, some st => showRes showOptNat (find x y st)
+    | _, _, _ => "bad-op"
+  | "b.rfind", [s, n, e] =>
+    match fs s, fs n, parseOptInt e with
+    | some x, some y, some e => showRes showOptNat (rfind x y e)
+    | _, _, _ => "bad-op"
+  | "b.substring", [s, a, b] =>
+    match fs s, a.toInt?, b.toInt? with
+    | some x, some a, some b => showRes showFS (FStr.substring x a b)
+    | _, _, _ => "bad-op"
   | _, _ => "bad-op"
 
 end XrayDriver
